@@ -53,6 +53,10 @@ struct OpScope {
 	}
 
 // zero-dimensional arrays: their own small operation set
+// re-indexes every dimension of an owning array to the given base (layout only; elements and storage stay)
+template<int D, class A, std::size_t... I> void reindex_all_impl(A& a, int base, std::index_sequence<I...>) { a.reindex(((void)I, static_cast<boost::multi::index>(base))...); }
+template<int D, class A> void reindex_all(A& a, int base) { reindex_all_impl<D>(a, base, std::make_index_sequence<D>{}); }
+
 template<class Cfg>
 bool Exec<Cfg>::run_real_d0(Op const& op) {
 	if constexpr(HAS_D0) {
@@ -280,6 +284,18 @@ bool Exec<Cfg>::run_real(Op const& op) {
 						else read_brackets<ET>(*it, first, ok);
 						if(!ok || !std::equal(first.begin(), first.end(), M.at(D, op.a).v.begin())) fail("P-view-invalidated", "an iterator obtained before reextent to the current extents no longer reads the array's elements");
 						probe(P_HELD_VIEW_CHECKED);
+					} else if(op.var == 1) {
+						// the same array under index base 1 in every dimension: old extents [1, 1+n), new extents [0, x)
+						reindex_all<D>(a, 1);
+						struct Restore {  // a failed reextent leaves the array as it was, i.e. one-based: the harness works zero-based
+							Arr<D>& a;
+							~Restore() {
+								if(a.num_elements() != 0 && a.extension().first() != 0) reindex_all<D>(a, 0);
+							}
+						} restore{a};
+						OpScope s;
+						if(op.kind == O_REEXTENT) a.reextent(x);
+						else a.reextent(x, val);
 					} else {
 						OpScope s;
 						if(op.kind == O_REEXTENT) a.reextent(x);
